@@ -129,7 +129,7 @@ func init() {
 		}
 		for k := 0; k < *f.n; k++ {
 			cfg := genCfg{minInstr: 1, maxInstr: 3 + r.intn(20), nGP: 2, physPct: 50, branchPct: 35,
-				malformed: r.chance(1, 2), opcodes: []string{"NOP", "ADDQ", "MOVQ", "CALL"}}
+				malformed: r.chance(1, 2), indirectJumps: r.chance(1, 3), opcodes: []string{"NOP", "ADDQ", "MOVQ", "CALL"}}
 			if r.chance(1, 10) {
 				cfg.opcodes = nil
 				cfg.randomFormPct = 50
@@ -187,7 +187,7 @@ func decodeNodes(ts []string) (*ir.Function, int, error) {
 			fn.AddComment("c")
 			p++
 		case "I":
-			inst := &ir.Instruction{Opcode: "NOP", IsBranch: ts[p+1] == "1", IsConditional: ts[p+2] == "1", IsTerminal: ts[p+3] == "1"}
+			inst := &ir.Instruction{Opcode: ts[p+5], IsBranch: ts[p+1] == "1", IsConditional: ts[p+2] == "1", IsTerminal: ts[p+3] == "1"}
 			if strings.HasPrefix(ts[p+4], "=") {
 				b, err := unhexs(ts[p+4][1:])
 				if err != nil {
@@ -198,7 +198,7 @@ func decodeNodes(ts []string) (*ir.Function, int, error) {
 				inst.Operands = []operand.Op{operand.Rel(0)}
 			}
 			fn.AddInstruction(inst)
-			p += 5
+			p += 6
 		default:
 			return nil, 0, fmt.Errorf("bad node tag %q", ts[p])
 		}
